@@ -89,8 +89,9 @@ TRUSTED = [
     '(payloads compared), plus rest-state agreement',
     'deterministic scheduler harness/detsched.py + line-level scheduling points harness/linesched.py (sys.monitoring LINE events)',
     'modelled not verified: queue.Queue(bs) blocks put at bs items and is FIFO; threading.Lock is a mutex and a timed '
-    'acquire fails only while the lock is held; one source line is atomic (preemption at line granularity, not inside '
-    '`box.n += 1`); the source obeys the iterator protocol (stays exhausted)',
+    'acquire fails only while the lock is held; single attribute reads/writes are atomic (the model does not assume '
+    'atomic source lines: `box.n += 1` is a read action and a write action; the tie preempts at line granularity only); '
+    'the source obeys the iterator protocol (stays exhausted)',
 ]
 ASSUMPTIONS = [
     'the correspondence was checked on the schedules explored in this run only; the theorems quantify over all schedules of the model',
